@@ -1160,6 +1160,7 @@ func ruleEOFL(c *Ctx) {
 		// "consume" answer to it is repeated for ever. Wanted: a lower bound on the rune among the
 		// conditions of this return (r >= <table word> / r >= 0 / r != -1)
 		bounded := false
+		eoflDefs = localDefs(info, r.fd)
 		for _, fct := range pathConds(info, par, rs) {
 			l, op, rr, ok := cmpFact(fct.e, !fct.neg)
 			if !ok {
@@ -1337,9 +1338,18 @@ func checkStackOps(c *Ctx, rule string, ti *TmplInstance) {
 
 // nonNegative: e is known to be >= 0 (strict: the comparison is r > e, so e >= -1 suffices): a
 // conversion of an unsigned value, a non-negative constant.
+// single-assignment locals of the function under analysis (a bound may be named first:
+// `lo := rune(table[k])`)
+var eoflDefs map[types.Object]ast.Expr
+
 func nonNegative(info *types.Info, e ast.Expr, strict bool) bool {
 	if v, ok := constInt(info, e); ok {
 		return v >= 0 || (strict && v >= -1)
+	}
+	if o := usesObj(info, stripConv(info, e)); o != nil && eoflDefs != nil {
+		if d, ok := eoflDefs[o]; ok && d != e {
+			return nonNegative(info, d, strict)
+		}
 	}
 	inner := stripConv(info, e)
 	if t := info.TypeOf(inner); t != nil {
